@@ -97,6 +97,25 @@ def check_system(ctx, case, name, A, B, impl_X, what):
                      tags=['solve', name, what])
 
 
+def share_axes(rng, pa, pb):
+    """pb with some of its physical axes replaced by physical axes of pa of the same size (same values)"""
+    from fggs.indices import ProductAxis, SumAxis, productAxis
+    mapping = {}
+    for k in pb.paxes:
+        cands = [j for j in pa.paxes if j._numel == k._numel and j not in mapping.values()]
+        if cands and rng.random() < 0.8:
+            mapping[k] = rng.choice(cands)
+    if not mapping:
+        return pb
+    def ren(e):
+        if isinstance(e, PhysicalAxis):
+            return mapping.get(e, e)
+        if isinstance(e, ProductAxis):
+            return ProductAxis(tuple(ren(f) for f in e.factors))
+        return SumAxis(e.before, ren(e.term), e.after)
+    return PatternedTensor(pb.physical, tuple(mapping.get(k, k) for k in pb.paxes), tuple(ren(e) for e in pb.vaxes), pb.default)
+
+
 def run(ctx):
     S = srs()
     # ---- dense Semiring.solve and PatternedTensor.solve
@@ -160,6 +179,9 @@ def run(ctx):
                 vals = [0.0, 0.25, 0.125, 0.5, 0.0, 1.0] if base == 'real' else VIT_V
                 pa = ptgen.random_pt(ctx.rng, [ty, ty], values=vals, defaults=[zero], specials=0.0, p_dense=0.15)
                 pb = ptgen.random_pt(ctx.rng, tyb, values=[0.0, 1.0, 2.0, 0.5] if base == 'real' else VIT_V, defaults=[zero], specials=0.0, p_dense=0.15)
+                if k % 4 == 0:
+                    # b built over a's own PhysicalAxis objects in other roles (solve must rename them apart)
+                    pb = share_axes(ctx.rng, pa, pb)
             A, B = pa.to_dense(), pb.to_dense().reshape(n, -1)
             if name == 'log':
                 pa = PatternedTensor(pa.physical.log(), pa.paxes, pa.vaxes, -math.inf)
@@ -183,6 +205,49 @@ def run(ctx):
                 ctx.fail('PatternedTensor.solve returned a result of the wrong shape', case, list(Xp.shape), list(pb.shape), tags=['shape', 'PatternedTensor.solve'])
                 continue
             check_system(ctx, dict(case, patterned=True), name, A, B, Xp.reshape(n, -1), 'PatternedTensor.solve')
+    # ---- structured family: A stored over three physical axes (k, j, i) as (k*j, j'*i) with j = j' shared, b a diagonal (d*d) or
+    #      a product (d*e) whose axes are fresh or are A's own axis objects (solve must rename b apart from A)
+    from fggs.indices import ProductAxis
+    for rep_ in range(1 if ctx.quick else 6):
+        for which in itertools.product(('fresh', 'k', 'j', 'i'), repeat=2):
+            for name in ('real', 'log', 'viterbi', 'bool'):
+                base = 'real' if name == 'log' else name
+                zero = {'real': 0.0, 'viterbi': -math.inf, 'bool': False}[base]
+                n = 2
+                k_, j_, i_ = PhysicalAxis(n), PhysicalAxis(n), PhysicalAxis(n)
+                pick = lambda w: {'fresh': PhysicalAxis(n), 'k': k_, 'j': j_, 'i': i_}[w]
+                d, e = pick(which[0]), pick(which[1])
+                if base == 'bool':
+                    pa_phys = torch.tensor([ctx.rng.random() < 0.5 for _ in range(8)]).reshape(2, 2, 2)
+                    pb_phys = torch.tensor([ctx.rng.random() < 0.7 for _ in range(n if d is e else n * n)]).reshape((n,) if d is e else (n, n))
+                elif base == 'viterbi':
+                    pa_phys = torch.tensor([ctx.rng.choice(VIT_V) for _ in range(8)], dtype=torch.float64).reshape(2, 2, 2)
+                    pb_phys = torch.tensor([ctx.rng.choice(VIT_V) for _ in range(n if d is e else n * n)], dtype=torch.float64).reshape((n,) if d is e else (n, n))
+                else:
+                    pa_phys = torch.tensor([ctx.rng.choice([0.0, 0.25, 0.125, 0.5]) for _ in range(8)], dtype=torch.float64).reshape(2, 2, 2)
+                    pb_phys = torch.tensor([ctx.rng.choice([0.5, 1.0, 2.0, 0.0]) for _ in range(n if d is e else n * n)], dtype=torch.float64).reshape((n,) if d is e else (n, n))
+                pa = PatternedTensor(pa_phys, (k_, j_, i_), (ProductAxis((k_, j_)), ProductAxis((j_, i_))), zero)
+                pb = PatternedTensor(pb_phys, (d,) if d is e else (d, e), (ProductAxis((d, e)),), zero)
+                A, B = pa.to_dense(), pb.to_dense().reshape(n * n, -1)
+                if name == 'log':
+                    pa = PatternedTensor(pa.physical.log(), pa.paxes, pa.vaxes, -math.inf)
+                    pb = PatternedTensor(pb.physical.log(), pb.paxes, pb.vaxes, -math.inf)
+                case = dict(semiring=name, A=A.tolist(), b=B.tolist(), family='(k*j, j*i) with b over ' + '*'.join(which))
+                ctx.case(case, ('shared-family', name, which, str(A.tolist()), str(B.tolist())), sample_every=40)
+                ctx.count(f'patterned-solve.shared-family.{name}')
+                da, db = pa.to_dense().clone(), pb.to_dense().clone()
+                try:
+                    Xp = from_sr(pa.solve(pb, S[name]).to_dense(), name)
+                except Exception as ex:  # noqa
+                    ctx.fail(f'PatternedTensor.solve raised {type(ex).__name__}: {str(ex)[:80]}', case, repr(ex), None,
+                             tags=['raises', 'PatternedTensor.solve', name, type(ex).__name__])
+                    continue
+                if not ptgen.same_dense(pa.to_dense(), da) or not ptgen.same_dense(pb.to_dense(), db):
+                    ctx.fail('PatternedTensor.solve modified its arguments', case, None, None, tags=['args-modified', 'PatternedTensor.solve'])
+                if list(Xp.shape) != list(pb.shape):
+                    ctx.fail('PatternedTensor.solve returned a result of the wrong shape', case, list(Xp.shape), list(pb.shape), tags=['shape', 'PatternedTensor.solve'])
+                    continue
+                check_system(ctx, dict(case, patterned=True), name, A, B, Xp.reshape(n * n, -1), 'PatternedTensor.solve')
     # ---- corpus: systems on which an LU answer is slightly negative / -0.0 and must be rejected
     for A, B in [([[2.0]], [1e-4]), ([[1.5]], [1e-5]), ([[0.5, 1.0], [1.0, 0.5]], [1e-4, 1e-4]), ([[1.0]], [0.0]), ([[math.inf]], [0.0]),
                  ([[0.0, 2.0], [2.0, 0.0]], [1e-5, 0.0])]:
